@@ -477,7 +477,8 @@ def front_end_signature(fb, f, rep):
             continue
         c = strip(n.kid('cond'))
         txt = render(c)
-        m = re.match(r'^\(strncmp\(paramTypeString, "(\w+)", (\d+)\) == 0\)$', txt)
+        # the type token is NUL-terminated: strcmp (exact) and strncmp(.., strlen(literal)) (prefix) are the two idioms
+        m = re.match(r'^\(strncmp\(paramTypeString, "(\w+)", (\d+)\) == 0\)$', txt) or re.match(r'^\(strcmp\(paramTypeString, "(\w+)"\) == 0\)$', txt)
         if not m:
             continue
         typ = m.group(1)
